@@ -16,6 +16,7 @@ use elf::symbol::Symbol;
 pub const DEF: PropDef = PropDef { id: "C11", strata, run, setup, canaries: &["panic"] };
 
 fn setup(ctx: &mut Ctx) {
+    ctx.floor("absent:query-aliases-a-stored-name", 1000);
     ctx.floor("present-found", 5000);
     ctx.floor("absent-none", 5000);
     ctx.floor("absent:passes-bloom", 500);
@@ -180,6 +181,21 @@ fn well_formed(ctx: &mut Ctx) {
             }
         } else if hashes.contains(&(h ^ 1)) {
             ctx.count("absent:hash-differs-only-in-bit0");
+        }
+        // the same absent name as a slice of the string table itself (a caller that got the name out of the file): when
+        // it is a proper prefix of a stored name, the query starts at the very address of that stored name
+        if let Some(j) = (so..nsyms).find(|&j| names[j].len() > a.len() && names[j].starts_with(&a)) {
+            let stn = tab.recs[j].get("st_name") as usize;
+            if let Some(alias) = tab.strtab.get(stn..stn + a.len()) {
+                ctx.count("absent:query-aliases-a-stored-name");
+                match find_any(enc, any, &hash, &tab.symtab, &tab.strtab, alias) {
+                    Ok(Found::None) => {}
+                    other => {
+                        ctx.violation("gnu:absent-found:aliasing-query", format!("absent name {} queried as the string-table slice [{stn},+{}) (a prefix of symbol {j}'s name): {:?} ({:?})", hex_trunc(&a, 40), a.len(), other.map(|f| format!("{f:?}")), p));
+                        return;
+                    }
+                }
+            }
         }
         match find_any(enc, any, &hash, &tab.symtab, &tab.strtab, &a) {
             Ok(Found::None) => {
